@@ -404,10 +404,18 @@ func c17RunScript(r *verifkit.Run, sc c17Script, desc string, pre bool, shuffle 
 			// ticker knows the handler, otherwise early ticks are legally missed
 			deadline := time.Now().Add(watchdog)
 			for {
+				// the handler is known once the ticker's registry holds an
+				// entry for this registration's context (no dependence on how
+				// the registry numbers its entries)
 				ticker.handlersMutex.Lock()
-				n := ticker.nextHandlerId
+				n := 0
+				for _, h := range ticker.handlers {
+					if h.ctx == g.ctx {
+						n++
+					}
+				}
 				ticker.handlersMutex.Unlock()
-				if n >= registrations {
+				if n >= 1 {
 					break
 				}
 				if time.Now().After(deadline) {
@@ -418,6 +426,27 @@ func c17RunScript(r *verifkit.Run, sc c17Script, desc string, pre bool, shuffle 
 				runtime.Gosched()
 			}
 			g.registered = true
+			// registry invariant at this quiescent point: the ticker removes a
+			// handler only once its context has ended, so every earlier
+			// registration whose context is still live must still be in the
+			// registry (a registration must never displace a live one)
+			ticker.handlersMutex.Lock()
+			for ri, og := range regs {
+				if og == nil || !og.registered || og.ctx.Err() != nil {
+					continue
+				}
+				present := 0
+				for _, h := range ticker.handlers {
+					if h.ctx == og.ctx {
+						present++
+					}
+				}
+				if present == 0 {
+					r.Violation(og.kind+":live-registration-lost",
+						fmt.Sprintf("registration %d has a live context but is no longer in the ticker's registry after registration %d was added: it will never be retransmitted again", ri, st.Reg), desc, nil)
+				}
+			}
+			ticker.handlersMutex.Unlock()
 		case "tick":
 			select {
 			case ticks <- uint64(si):
